@@ -16,6 +16,9 @@ package main
 // <store> = a C01 history line (see common_chain.go); the token `linear=<n>` stands for the canonical linear
 // chain of n headers (ids 2..n+1, header k has prev k-1... see c13Linear) so that a 2100-header store does not
 // need a 2100-submission line.  The store is built by submitting every header to Chains.Add.
+// The network of a store is the one whose genesis header is described by the g= token (bits, timestamp, nonce):
+// mainnet, testnet3 or regtest; the stack of that store is configured like cmd/main.go does
+// (cfg.P2P.ChainNetType -> database.Init inserts cfg.P2P.GetNetParams() genesis, service.NewServices).
 // Runs of consecutive ids a,a+1,..,b (at least 3) are printed a-b in id lists.
 // Ids in queries: 0 = zero hash, 1 = genesis, ids defined by no submission = unknown hashes.
 
@@ -24,9 +27,13 @@ import (
 	"sort"
 	"strconv"
 	"strings"
+	"time"
 
+	"github.com/bitcoin-sv/block-headers-service/config"
 	"github.com/bitcoin-sv/block-headers-service/domains"
+	"github.com/bitcoin-sv/block-headers-service/internal/chaincfg"
 	"github.com/bitcoin-sv/block-headers-service/internal/chaincfg/chainhash"
+	"github.com/bitcoin-sv/block-headers-service/service"
 	"github.com/bitcoin-sv/block-headers-service/internal/wire"
 )
 
@@ -46,34 +53,129 @@ func c13Linear(n int) []Sub {
 	return out
 }
 
-// c13ParseStore parses the store part of a case line.
-func c13ParseStore(line string) (*History, error) {
+// c13Net is one configurable network.
+type c13Net struct {
+	name   string
+	typ    config.NetworkType
+	params *chaincfg.Params
+}
+
+var c13Nets = []c13Net{
+	{"mainnet", config.MainNet, &chaincfg.MainNetParams},
+	{"testnet", config.TestNet, &chaincfg.TestNet3Params},
+	{"regtest", config.RegTestNet, &chaincfg.RegressionNetParams},
+}
+
+// c13Head is the "g=...;f=" prefix of a store line on the given network.
+func c13Head(n c13Net) string {
+	gh := n.params.GenesisBlock.Header
+	return fmt.Sprintf("g=%d,%d,%d,%d,%d,%d;f=", genesisID, gh.Bits, 1, 1, gh.Timestamp.Unix(), gh.Nonce)
+}
+
+// c13ParseStore parses the store part of a case line; the network is recognised from the g= token.
+func c13ParseStore(line string) (*History, c13Net, error) {
 	h := &History{}
+	net := c13Nets[0]
 	for _, tok := range strings.Split(line, ";") {
 		tok = strings.TrimSpace(tok)
 		if tok == "" {
 			continue
 		}
+		if strings.HasPrefix(tok, "g=") {
+			found := false
+			for _, n := range c13Nets {
+				if strings.HasPrefix(c13Head(n), tok+";") {
+					net, found = n, true
+				}
+			}
+			if !found {
+				return nil, net, fmt.Errorf("genesis token %q is not the genesis of a known network", tok)
+			}
+			continue
+		}
 		if strings.HasPrefix(tok, "linear=") {
 			n, err := strconv.Atoi(tok[7:])
 			if err != nil || n < 0 || n > 100000 {
-				return nil, fmt.Errorf("bad token %q", tok)
+				return nil, net, fmt.Errorf("bad token %q", tok)
 			}
 			h.Subs = append(h.Subs, c13Linear(n)...)
 			continue
 		}
 		p, err := ParseHistory(tok)
 		if err != nil {
-			return nil, err
+			return nil, net, err
 		}
 		h.Forbidden = append(h.Forbidden, p.Forbidden...)
 		h.Subs = append(h.Subs, p.Subs...)
 	}
-	return h, nil
+	return h, net, nil
+}
+
+// c13Materialize is Materialize (common_chain.go) with the genesis hash of the store's network.
+func c13Materialize(h *History, genesis chainhash.Hash) (*Mat, error) {
+	m := &Mat{H: h, Hash: map[int]chainhash.Hash{}, IDOf: map[chainhash.Hash]int{}, MerkID: map[chainhash.Hash]int{}, def: map[int]int{}}
+	for i, s := range h.Subs {
+		if _, ok := m.def[s.ID]; !ok {
+			m.def[s.ID] = i
+		}
+	}
+	m.Hash[0] = chainhash.Hash{}
+	m.Hash[genesisID] = genesis
+	hasher := service.DefaultBlockHasher()
+	srcOf := func(s Sub, prev chainhash.Hash) domains.BlockHeaderSource {
+		return domains.BlockHeaderSource{Version: s.Ver, PrevBlock: prev, MerkleRoot: merkleBytes(s.Merkle),
+			Timestamp: time.Unix(int64(s.TS), 0), Bits: s.Bits, Nonce: s.Nonce}
+	}
+	var hashOf func(id int, depth int) (chainhash.Hash, error)
+	hashOf = func(id int, depth int) (chainhash.Hash, error) {
+		if v, ok := m.Hash[id]; ok {
+			return v, nil
+		}
+		if depth > len(h.Subs)+2 {
+			return chainhash.Hash{}, fmt.Errorf("cyclic parent links at id %d", id)
+		}
+		i, ok := m.def[id]
+		if !ok {
+			v := fakeHash(id)
+			m.Hash[id] = v
+			return v, nil
+		}
+		s := h.Subs[i]
+		ph, err := hashOf(s.Prev, depth+1)
+		if err != nil {
+			return ph, err
+		}
+		src := srcOf(s, ph)
+		v := chainhash.Hash(hasher.BlockHash(&src))
+		m.Hash[id] = v
+		return v, nil
+	}
+	for _, s := range h.Subs {
+		if _, err := hashOf(s.ID, 0); err != nil {
+			return nil, err
+		}
+		ph, err := hashOf(s.Prev, 0)
+		if err != nil {
+			return nil, err
+		}
+		if d := h.Subs[m.def[s.ID]]; d != s {
+			return nil, fmt.Errorf("id %d defined twice with different fields", s.ID)
+		}
+		m.Src = append(m.Src, srcOf(s, ph))
+	}
+	for id, hv := range m.Hash {
+		if old, ok := m.IDOf[hv]; ok && old != id {
+			return nil, fmt.Errorf("hash collision between ids %d and %d (SHA-256d injectivity assumption violated)", old, id)
+		}
+		m.IDOf[hv] = id
+	}
+	return m, nil
 }
 
 // c13Store is a built store plus what the query generators need to know about it.
 type c13Store struct {
+	stk  *Stack // the stack of the store's network
+	net  string
 	line string // store part of the input line
 	m    *Mat
 	rows []HeaderRow
@@ -84,19 +186,39 @@ type c13Store struct {
 	all  []int
 }
 
-func c13Build(s *Stack, line string) (*c13Store, error) {
-	h, err := c13ParseStore(line)
+// stack returns (creating it on first use) the real stack configured for the network.
+func (r *c13Run) stack(n c13Net) (*Stack, error) {
+	if s, ok := r.stacks[n.name]; ok {
+		return s, nil
+	}
+	s, err := NewStack(StackOpts{Dir: r.c.TmpDir("c13-" + n.name), Mutate: func(cfg *config.AppConfig) { cfg.P2P.ChainNetType = n.typ }})
 	if err != nil {
 		return nil, err
 	}
-	m, err := Materialize(h)
+	r.stacks[n.name] = s
+	return s, nil
+}
+
+func c13Build(r *c13Run, line string) (*c13Store, error) {
+	h, net, err := c13ParseStore(line)
+	if err != nil {
+		return nil, err
+	}
+	s, err := r.stack(net)
+	if err != nil {
+		return nil, err
+	}
+	m, err := c13Materialize(h, *net.params.GenesisHash)
 	if err != nil {
 		return nil, err
 	}
 	if err := s.ResetHeaders(); err != nil {
 		return nil, err
 	}
-	s.SetForbidden(m.ForbiddenHashes())
+	// the Chains service with the network's parameters plus the forbidden hashes of the history
+	p := *net.params
+	p.HeadersToIgnore = m.ForbiddenHashes()
+	s.Services.Chains = service.NewChainsService(s.Repo, &p, s.Log, service.DefaultBlockHasher(), s.Services.Notifier)
 	for i := range h.Subs {
 		AddOutcome(s, m.Src[i])
 	}
@@ -104,7 +226,7 @@ func c13Build(s *Stack, line string) (*c13Store, error) {
 	if err != nil {
 		return nil, err
 	}
-	st := &c13Store{line: line, m: m, rows: rows, byH: map[int64][]int{}}
+	st := &c13Store{stk: s, net: net.name, line: line, m: m, rows: rows, byH: map[int64][]int{}}
 	type hl struct {
 		h  int64
 		id int
@@ -289,8 +411,8 @@ func c13ParseQuery(q string) ([]int, int, error) {
 }
 
 type c13Run struct {
-	c    *Ctx
-	s    *Stack
+	c      *Ctx
+	stacks map[string]*Stack
 	seen map[string]bool
 }
 
@@ -307,13 +429,13 @@ func (r *c13Run) emit(st *c13Store, q string) {
 			sb.WriteString(stLetter(row.State))
 		}
 		tip := -2
-		if t, err := r.s.Repo.Headers.GetTip(); err == nil && t != nil {
+		if t, err := st.stk.Repo.Headers.GetTip(); err == nil && t != nil {
 			tip = st.m.ID(t.Hash.String())
 		}
 		r.c.Case(line, fmt.Sprintf("%d/%s", tip, sb.String()))
 		r.c.Count("query:store")
 	case q == "loc":
-		r.c.Case(line, st.obsLoc(r.s))
+		r.c.Case(line, st.obsLoc(st.stk))
 		r.c.Count("query:locator")
 		r.c.Count(fmt.Sprintf("locator:tip-height-%s", c13Bucket(len(st.lIDs)-1)))
 	default:
@@ -321,7 +443,7 @@ func (r *c13Run) emit(st *c13Store, q string) {
 		if err != nil {
 			panic(err)
 		}
-		obs := st.obsQuery(r.s, loc, stop)
+		obs := st.obsQuery(st.stk, loc, stop)
 		r.c.Case(line, obs)
 		r.c.Count("query:getheaders")
 		r.classify(st, loc, stop, obs)
@@ -424,7 +546,7 @@ func (r *c13Run) queries(st *c13Store, nLoc, nStop int, stopEvery int) {
 	unknown := func() int { return 900000 + rng.Intn(50) }
 	var locs [][]int
 	// the locator the service itself would send
-	own := r.s.Services.Headers.LatestHeaderLocator()
+	own := st.stk.Services.Headers.LatestHeaderLocator()
 	var ownIDs []int
 	for _, hp := range own {
 		if hp != nil {
@@ -507,13 +629,104 @@ func (r *c13Run) queries(st *c13Store, nLoc, nStop int, stopEvery int) {
 	}
 }
 
-func runC13(c *Ctx) error {
-	s, err := NewStack(StackOpts{Dir: c.TmpDir("c13")})
-	if err != nil {
-		return err
+
+// longLocators: locators of 101..500 entries (the wire allows 500) - longer than any batch size a lookup might
+// use - whose longest-chain entries are spread over the whole locator, with stale / orphan / unknown entries
+// interleaved; orders: newest first, oldest first, shuffled; the highest longest-chain entry is placed in the
+// first, a middle or the last hundred.  Stops: none, unknown, right after the true start, a little below the
+// true start (must yield nothing), the tip.
+func (r *c13Run) longLocators(st *c13Store, sizes []int) {
+	rng := r.c.Rng
+	H := len(st.lIDs) - 1
+	if H < 30 {
+		return
 	}
-	defer s.Close()
-	r := &c13Run{c: c, s: s, seen: map[string]bool{}}
+	var other []int
+	other = append(other, st.sIDs...)
+	other = append(other, st.oIDs...)
+	for _, n := range sizes {
+		for _, place := range []string{"first", "middle", "last"} {
+			for _, order := range []string{"newest", "oldest", "shuffled"} {
+				if order != "shuffled" && place != "first" && rng.Intn(2) == 0 {
+					continue
+				}
+				hiH := H - rng.Intn(8)
+				// the other longest-chain entries: distinct heights below hiH-20
+				pool := rng.Perm(hiH - 20)
+				var lows []int
+				for _, h := range pool {
+					if len(lows) >= n-1 {
+						break
+					}
+					lows = append(lows, h)
+				}
+				if order == "newest" {
+					sort.Sort(sort.Reverse(sort.IntSlice(lows)))
+				} else if order == "oldest" {
+					sort.Ints(lows)
+				}
+				loc := make([]int, 0, n)
+				for _, h := range lows {
+					switch x := rng.Intn(10); {
+					case x == 0:
+						loc = append(loc, 900000+rng.Intn(50))
+					case x == 1 && len(other) > 0:
+						loc = append(loc, other[rng.Intn(len(other))])
+					default:
+						loc = append(loc, st.lIDs[h])
+					}
+				}
+				for len(loc) < n-1 { // short chains: fill with unknown hashes and duplicates
+					if rng.Intn(2) == 0 {
+						loc = append(loc, 900000+rng.Intn(50))
+					} else {
+						loc = append(loc, loc[rng.Intn(len(loc))])
+					}
+				}
+				var pos int
+				switch place {
+				case "first":
+					pos = rng.Intn(100)
+				case "middle":
+					pos = 100 + rng.Intn(n-200+1)
+					if n <= 200 {
+						pos = 100 + rng.Intn(n-100)
+					}
+				default:
+					pos = n - 1 - rng.Intn(100)
+					if pos < 100 {
+						pos = n - 1
+					}
+				}
+				if order == "newest" && place == "first" {
+					pos = 0
+				}
+				if pos > len(loc) {
+					pos = len(loc)
+				}
+				loc = append(loc[:pos], append([]int{st.lIDs[hiH]}, loc[pos:]...)...)
+				stops := []int{0, 900001, st.lIDs[H]}
+				if hiH+1 <= H {
+					stops = append(stops, st.lIDs[hiH+1])
+				}
+				stops = append(stops, st.lIDs[hiH-5], st.lIDs[hiH])
+				for _, sp := range stops {
+					r.emit(st, c13QueryString(loc, sp))
+				}
+				r.c.Count("locator:long-" + place + "-hundred")
+				r.c.Count("locator:long-" + order)
+			}
+		}
+	}
+}
+
+func runC13(c *Ctx) error {
+	r := &c13Run{c: c, stacks: map[string]*Stack{}, seen: map[string]bool{}}
+	defer func() {
+		for _, s := range r.stacks {
+			s.Close()
+		}
+	}()
 	c.Meta("cap", strconv.Itoa(wire.MaxCFHeadersPerMsg))
 	split := func(line string) (string, string, error) {
 		i := strings.LastIndex(line, "|")
@@ -527,7 +740,7 @@ func runC13(c *Ctx) error {
 		if err != nil {
 			return err
 		}
-		st, err := c13Build(s, sl)
+		st, err := c13Build(r, sl)
 		if err != nil {
 			return err
 		}
@@ -542,7 +755,7 @@ func runC13(c *Ctx) error {
 			return err
 		}
 		if cur == nil || cur.line != sl {
-			if cur, err = c13Build(s, sl); err != nil {
+			if cur, err = c13Build(r, sl); err != nil {
 				return fmt.Errorf("corpus line %q: %w", l, err)
 			}
 		}
@@ -558,7 +771,7 @@ func runC13(c *Ctx) error {
 	}
 	for _, t := range tiny {
 		line := head + t
-		st, err := c13Build(s, line)
+		st, err := c13Build(r, line)
 		if err != nil {
 			return err
 		}
@@ -590,7 +803,7 @@ func runC13(c *Ctx) error {
 		}
 	}
 	for _, n := range lin {
-		st, err := c13Build(s, fmt.Sprintf("%s;linear=%d", head, n))
+		st, err := c13Build(r, fmt.Sprintf("%s;linear=%d", head, n))
 		if err != nil {
 			return err
 		}
@@ -602,7 +815,7 @@ func runC13(c *Ctx) error {
 	for i := 0; i < n; i++ {
 		o := GenOpts{N: 2 + c.Rng.Intn(c.Pick(28, 45)), PUnknown: 0.06, PLate: 0.08, PDup: 0.05, PForbidden: 0.1, Positive: true, Deep: i%3 != 0}
 		h := GenHistory(c.Rng, o)
-		st, err := c13Build(s, h.Line())
+		st, err := c13Build(r, h.Line())
 		if err != nil {
 			return err
 		}
@@ -616,7 +829,7 @@ func runC13(c *Ctx) error {
 	for i, m := 0, c.Pick(25, 250); i < m; i++ {
 		o := GenOpts{N: 2 + c.Rng.Intn(c.Pick(20, 35)), PUnknown: 0.06, PLate: 0.08, PDup: 0.05, ZeroWork: true, Deep: i%2 == 0}
 		h := GenHistory(c.Rng, o)
-		st, err := c13Build(s, h.Line())
+		st, err := c13Build(r, h.Line())
 		if err != nil {
 			return err
 		}
@@ -641,7 +854,7 @@ func runC13(c *Ctx) error {
 			id += 2
 		}
 		fmt.Fprintf(&sb, ";%s", Sub{ID: id, Prev: 800000 + i, Bits: bitsW2, Ver: 1, Merkle: id + 100, TS: uint32(1700000000 + id), Nonce: uint32(id)})
-		st, err := c13Build(s, sb.String())
+		st, err := c13Build(r, sb.String())
 		if err != nil {
 			return err
 		}
@@ -657,12 +870,66 @@ func runC13(c *Ctx) error {
 		fmt.Fprintf(&sb, ";%s", Sub{ID: id, Prev: long - 10, Bits: bitsW2, Ver: 1, Merkle: id + 100, TS: uint32(1700000000), Nonce: 1})
 		fmt.Fprintf(&sb, ";%s", Sub{ID: id + 1, Prev: id, Bits: bitsW2, Ver: 1, Merkle: id + 101, TS: uint32(1700000001), Nonce: 2})
 		fmt.Fprintf(&sb, ";%s", Sub{ID: id + 2, Prev: 800900, Bits: bitsW2, Ver: 1, Merkle: id + 102, TS: uint32(1700000002), Nonce: 3})
-		st, err := c13Build(s, sb.String())
+		st, err := c13Build(r, sb.String())
 		if err != nil {
 			return err
 		}
 		r.queries(st, c.Pick(14, 30), 8, 50)
+		r.longLocators(st, []int{101, 250, 500})
 		c.Count("gen:long-linear")
+	}
+	// a smaller chain for the locators of 101..500 entries (all sizes), with stale siblings and an orphan
+	{
+		n := 330
+		var sb strings.Builder
+		fmt.Fprintf(&sb, "%s;linear=%d", head, n)
+		id := n + 10
+		for _, at := range []int{40, 150, 151, 300} {
+			fmt.Fprintf(&sb, ";%s", Sub{ID: id, Prev: at, Bits: bitsW2, Ver: 1, Merkle: id + 100, TS: uint32(1700000000 + id), Nonce: uint32(id)})
+			id++
+		}
+		fmt.Fprintf(&sb, ";%s", Sub{ID: id, Prev: 800901, Bits: bitsW2, Ver: 1, Merkle: id + 100, TS: uint32(1700000000 + id), Nonce: uint32(id)})
+		st, err := c13Build(r, sb.String())
+		if err != nil {
+			return err
+		}
+		r.emit(st, "st")
+		r.emit(st, "loc")
+		sizes := []int{101, 150, 200, 201, 300, 301, 499, 500}
+		if c.Thorough() {
+			for k := 0; k < 20; k++ {
+				sizes = append(sizes, 101+c.Rng.Intn(400))
+			}
+		}
+		r.longLocators(st, sizes)
+		c.Count("gen:medium-linear-long-locators")
+	}
+	// the network dimension: stores on the testnet and regtest genesis (configured as cmd/main.go does); all the
+	// stop-hash families (genesis, zero, ahead, behind, stale, orphan, unknown) and the empty / unknown locators
+	for _, net := range c13Nets[1:] {
+		nh := c13Head(net)
+		lines := []string{nh, fmt.Sprintf("%s;linear=1", nh)}
+		{
+			var sb strings.Builder
+			fmt.Fprintf(&sb, "%s;linear=14", nh)
+			fmt.Fprintf(&sb, ";%s", Sub{ID: 30, Prev: 9, Bits: bitsW2, Ver: 1, Merkle: 130, TS: 1700000030, Nonce: 30})
+			fmt.Fprintf(&sb, ";%s", Sub{ID: 31, Prev: 30, Bits: bitsW2, Ver: 1, Merkle: 131, TS: 1700000031, Nonce: 31})
+			fmt.Fprintf(&sb, ";%s", Sub{ID: 32, Prev: 800902, Bits: bitsW2, Ver: 1, Merkle: 132, TS: 1700000032, Nonce: 32})
+			lines = append(lines, sb.String())
+		}
+		for i, m := 0, c.Pick(4, 40); i < m; i++ {
+			h := GenHistory(c.Rng, GenOpts{N: 3 + c.Rng.Intn(20), PUnknown: 0.06, PLate: 0.08, PDup: 0.05, PForbidden: 0.1, Positive: true, Deep: i%2 == 0})
+			l := h.Line()
+			lines = append(lines, nh+l[strings.Index(l, ";f=")+3:])
+		}
+		for _, l := range lines {
+			st, err := c13Build(r, l)
+			if err != nil {
+				return err
+			}
+			r.queries(st, 12, 8, 0)
+			c.Count("gen:net-" + net.name)
+		}
 	}
 	return nil
 }
